@@ -1610,7 +1610,7 @@ def module_fingerprints(tree, modname, is_pkg=False, known_modules=(), inlinable
     ctx = Ctx(modname, is_pkg, imports, module_names, loggers, known_modules, mod_funcs, mod_classes, inlinable)
     ctx.ancestors = same_module_ancestors(tree)
     ctx.module_consts = module_constants(tree)
-    funcs, residue, inlined = {}, [], set()
+    funcs, residue, inlined, scopes = {}, [], set(), {}
 
     def add(key, fnode, cls):
         g = FuncGraph(fnode, ctx, cls)
@@ -1620,10 +1620,22 @@ def module_fingerprints(tree, modname, is_pkg=False, known_modules=(), inlinable
     def is_doc(st):
         return isinstance(st, ast.Expr) and isinstance(st.value, ast.Constant) and isinstance(st.value.value, str)
 
-    def scope_fp(stmts):
+    def scope_fp(stmts, only=None):
         """Fingerprint of the non-function statements of a module or class body: what each name ends up bound to, and
-        the effects on the way (names resolved through the imports, temporaries transparent)."""
-        names = assigned_names(stmts)
+        the effects on the way (names resolved through the imports, temporaries transparent).  `only`: one name."""
+        names = assigned_names(stmts) if only is None else ([only] if isinstance(only, str) else list(only))
+        if only is not None:
+            # backward slice: the statements that bind a needed name (or bind nothing: pure effects), and what they read
+            need, keep = set(names), [False] * len(stmts)
+            bound = [set(assigned_names([st])) for st in stmts]
+            changed = True
+            while changed:
+                changed = False
+                for i, st in enumerate(stmts):
+                    if not keep[i] and (not bound[i] or bound[i] & need):
+                        keep[i] = changed = True
+                        need.update(n.id for n in ast.walk(st) if isinstance(n, ast.Name))
+            stmts = [st for i, st in enumerate(stmts) if keep[i]]
         ret = ast.Return(value=ast.Dict(keys=[ast.Constant(value=n) for n in sorted(names)],
                                         values=[ast.Name(id=n, ctx=ast.Load()) for n in sorted(names)]))
         fake = ast.FunctionDef(name="<scope>", args=ast.arguments(posonlyargs=[], args=[], vararg=None, kwonlyargs=[], kw_defaults=[], kwarg=None, defaults=[]),
@@ -1636,6 +1648,9 @@ def module_fingerprints(tree, modname, is_pkg=False, known_modules=(), inlinable
                   and not (isinstance(m, ast.AnnAssign) and m.value is None)]
         if cstmts:
             residue.append(("cbody", prefix + c.name, scope_fp(cstmts)))
+        scopes[prefix + c.name + ".<class>#*"] = _h(repr(residue[-2 if cstmts else -1]))
+        for nm in sorted(assigned_names(cstmts)):
+            scopes[prefix + c.name + ".<class>#" + nm] = scope_fp(cstmts, only=nm)
         for m in c.body:
             if isinstance(m, (ast.FunctionDef, ast.AsyncFunctionDef)):
                 suffix = "".join(":" + ast.unparse(d).rsplit(".", 1)[1] for d in m.decorator_list if ast.unparse(d).endswith((".setter", ".deleter", ".getter")))
@@ -1673,10 +1688,13 @@ def module_fingerprints(tree, modname, is_pkg=False, known_modules=(), inlinable
         top(st)
     if mstmts:
         residue.append(("mbody", scope_fp(mstmts)))
+    for nm in sorted(assigned_names(mstmts)):
+        scopes["<module>#" + nm] = scope_fp(mstmts, only=nm)
+    scopes["<module>#*"] = scope_fp(mstmts, only=()) if mstmts else ""
     exported = sorted((k, v) for k, v in imports.items() if is_pkg)
     transparent = sorted(f"{c}.{n}" if c else n for (c, n), k in ctx.created.items() if 0 < k <= ctx.consumed.get((c, n), 0))
     return {"funcs": funcs, "residue": _h(repr(residue), repr(exported)),
-            "inlined": sorted(f"{c}.{n}" if c else n for c, n in inlined), "transparent": transparent, "consts": consts}
+            "inlined": sorted(f"{c}.{n}" if c else n for c, n in inlined), "transparent": transparent, "consts": consts, "scopes": scopes}
 
 
 def _residue_text(st):
